@@ -68,6 +68,41 @@ static void add_handmade (void)
 		{ unsigned char *q = szp ; le32w (&q, (uint32_t) (p - b - 8)) ; }
 		corpus [ncorp].d = b ; corpus [ncorp].len = (long) (p - b) ; corpus [ncorp].format = SF_FORMAT_WAV | SF_FORMAT_PCM_16 ; corpus [ncorp].ch = 1 ; corpus [ncorp].meta = 2 ; ncorp++ ;
 		}
+	/* many strings: more entries than the string table has slots (CAF info chunk, WAV LIST/INFO, AIFF text chunks) */
+	{	int nent, i ; static const char *ids [] = { "INAM", "IART", "ICMT", "ICOP", "ISFT", "ICRD", "IGNR", "IPRD", "ITRK" } ;
+		for (nent = 30 ; nent <= 70 ; nent += 8)
+		{	unsigned char *b = calloc (1, 16384), *p = b, *szp, *lp ; int frames = 50 ; if (ncorp >= 1398) { free (b) ; return ; }
+			memcpy (p, "caff", 4) ; p += 4 ; be16 (&p, 1) ; be16 (&p, 0) ;
+			memcpy (p, "desc", 4) ; p += 4 ; be32w (&p, 0) ; be32w (&p, 32) ; { static const unsigned char r8000 [8] = { 0x40, 0xBF, 0x40, 0, 0, 0, 0, 0 } ; memcpy (p, r8000, 8) ; p += 8 ; } memcpy (p, "lpcm", 4) ; p += 4 ; be32w (&p, 0) ; be32w (&p, 2) ; be32w (&p, 1) ; be32w (&p, 1) ; be32w (&p, 16) ;
+			memcpy (p, "info", 4) ; p += 4 ; szp = p ; p += 8 ; lp = p ; be32w (&p, nent) ; for (i = 0 ; i < nent ; i++) { p += sprintf ((char *) p, "key%02d", i) + 1 ; p += sprintf ((char *) p, "value number %d", i) + 1 ; if (i % 9 == 0) { p += sprintf ((char *) p, "title") + 1 ; p += sprintf ((char *) p, "t%d", i) + 1 ; } }
+			{ unsigned char *q = szp ; be32w (&q, 0) ; be32w (&q, (uint32_t) (p - lp)) ; }
+			memcpy (p, "data", 4) ; p += 4 ; be32w (&p, 0) ; be32w (&p, 4 + frames * 2) ; be32w (&p, 0) ; for (i = 0 ; i < frames ; i++) be16 (&p, (unsigned) (i * 321) & 0xffff) ;
+			corpus [ncorp].d = b ; corpus [ncorp].len = (long) (p - b) ; corpus [ncorp].format = SF_FORMAT_CAF | SF_FORMAT_PCM_16 ; corpus [ncorp].ch = 1 ; corpus [ncorp].meta = 2 ; ncorp++ ;
+			}
+		for (nent = 30 ; nent <= 70 ; nent += 10)
+		{	unsigned char *b = calloc (1, 16384), *p = b, *szp, *lsz, *ls ; int frames = 50 ; if (ncorp >= 1398) { free (b) ; return ; }
+			memcpy (p, "RIFF", 4) ; p += 4 ; szp = p ; p += 4 ; memcpy (p, "WAVE", 4) ; p += 4 ;
+			memcpy (p, "fmt ", 4) ; p += 4 ; le32w (&p, 16) ; le16w (&p, 1) ; le16w (&p, 1) ; le32w (&p, 8000) ; le32w (&p, 16000) ; le16w (&p, 2) ; le16w (&p, 16) ;
+			memcpy (p, "LIST", 4) ; p += 4 ; lsz = p ; p += 4 ; ls = p ; memcpy (p, "INFO", 4) ; p += 4 ;
+			for (i = 0 ; i < nent ; i++) { char txt [40] ; int l = sprintf (txt, "text item %d", i) + 1 ; l += l & 1 ; memcpy (p, ids [i % 9], 4) ; p += 4 ; le32w (&p, l) ; memcpy (p, txt, strlen (txt) + 1) ; p += l ; }
+			{ unsigned char *q = lsz ; le32w (&q, (uint32_t) (p - ls)) ; }
+			memcpy (p, "data", 4) ; p += 4 ; le32w (&p, frames * 2) ; for (i = 0 ; i < frames ; i++) le16w (&p, (unsigned) (i * 100) & 0xffff) ;
+			{ unsigned char *q = szp ; le32w (&q, (uint32_t) (p - b - 8)) ; }
+			corpus [ncorp].d = b ; corpus [ncorp].len = (long) (p - b) ; corpus [ncorp].format = SF_FORMAT_WAV | SF_FORMAT_PCM_16 ; corpus [ncorp].ch = 1 ; corpus [ncorp].meta = 2 ; ncorp++ ;
+			}
+		}
+	/* one to four ID3v2 tags (each larger than the header cache) in front of a small WAV file */
+	{	int ntag, i ;
+		for (ntag = 1 ; ntag <= 4 ; ntag++)
+		{	long tagsz = 60000 ; unsigned char *b = calloc (1, (size_t) ntag * (tagsz + 10) + 400), *p = b, *szp ; int frames = 50 ; if (ncorp >= 1398) { free (b) ; return ; }
+			for (i = 0 ; i < ntag ; i++) { memcpy (p, "ID3", 3) ; p += 3 ; *p++ = 3 ; *p++ = 0 ; *p++ = 0 ; *p++ = (tagsz >> 21) & 0x7f ; *p++ = (tagsz >> 14) & 0x7f ; *p++ = (tagsz >> 7) & 0x7f ; *p++ = tagsz & 0x7f ; p += tagsz ; }
+			memcpy (p, "RIFF", 4) ; p += 4 ; szp = p ; p += 4 ; memcpy (p, "WAVE", 4) ; p += 4 ;
+			memcpy (p, "fmt ", 4) ; p += 4 ; le32w (&p, 16) ; le16w (&p, 1) ; le16w (&p, 1) ; le32w (&p, 8000) ; le32w (&p, 16000) ; le16w (&p, 2) ; le16w (&p, 16) ;
+			memcpy (p, "data", 4) ; p += 4 ; le32w (&p, frames * 2) ; for (i = 0 ; i < frames ; i++) le16w (&p, (unsigned) (i * 100) & 0xffff) ;
+			{ unsigned char *q = szp ; le32w (&q, (uint32_t) (p - szp - 4)) ; }
+			corpus [ncorp].d = b ; corpus [ncorp].len = (long) (p - b) ; corpus [ncorp].format = SF_FORMAT_WAV | SF_FORMAT_PCM_16 ; corpus [ncorp].ch = 1 ; corpus [ncorp].meta = 1 ; ncorp++ ;
+			}
+		}
 }
 
 static void build_corpus (void)
